@@ -511,6 +511,10 @@ def run(ctx):
     ctx.attempt(r58, ctx)
     ctx.rule("R-5.10", "the acquire primitive does not evaluate the P matrix (the idle block may be empty right after the last acquire)", floor=1)
     ctx.attempt(r510, ctx)
+    ctx.rule("R-5.14", "a picked job can always be given its engines: a worker releases every engine slot it holds before it claims the slots of its next job (shared with C03 R-3.6)", floor=4)
+    from . import c03 as _c03d
+    from .shared import RuleProxy as _RP5c
+    ctx.attempt(_c03d.r36, _RP5c(ctx, "R-5.14", " (a worker keeps the single slot of a scarce engine type while it runs jobs of another type: the next worker picked for that type finds no free engine, prep_md_items raises and the idle worker cannot be given a job)"))
     ctx.rule("R-5.13", "an accepted path has non-zero weight in its own ensemble, so the step can be completed (add_traj asserts it): calc_cv_vector / compute_weight plumbing, options tested with `is not False` (shared with C10 R-10.4)", floor=5)
     from . import c10 as _c10
     from .shared import RuleProxy as _RP5b
@@ -528,6 +532,7 @@ def run(ctx):
 
 
 VARIANTS = [
+    B("c05-engines-released-per-requested-type-only", "infretis/classes/engines/factory.py", "    for eng_key in engine_occ.keys():\n        for i, occupied_by in enumerate(engine_occ[eng_key]):\n            if pin == occupied_by:", "    for eng_key in eng_names:\n        for i, occupied_by in enumerate(engine_occ[eng_key]):\n            if pin == occupied_by:", "R-5.14", control=True, why="seeded C05_m"),
     B("c05-minus-interface-by-truthiness", TIS_REL, "        if lambda_minus_one is not False:", "        if lambda_minus_one:", "R-5.13", control=True, why="seeded C05_l (lambda_minus_one = 0.0 is a legal interface)"),
     B("c05-budget-clamped-before-subtraction", REPEX, "            total_traj_prob -= ens\n            # force negative values to 0\n            total_traj_prob[np.where(total_traj_prob < 0)] = 0\n", "            # force negative values to 0\n            total_traj_prob[np.where(total_traj_prob < 0)] = 0\n            total_traj_prob -= ens\n", "R-5.12", control=True, why="seeded C05_k"),
     B("c05-resort-keeps-stale-matrix", REPEX, "            ]\n        self._last_prob = None\n        self.prob\n\n    def lock(self, ens):", "            ]\n        self.prob\n\n    def lock(self, ens):", "R-5.11", control=True, why="seeded C05_j"),
